@@ -351,6 +351,33 @@ class C04(Base):
 
 
 # ----------------------------------------------------------------------
+    def fresh_initial_state(self, subj):
+        """env.generate_initial_state(): a fresh copy of the scenario's
+        initial state that leaves the running episode alone."""
+        acc = self.acc
+        acc.evaluations += 1
+        env = subj.env
+        before = (env.current_state, env.current_state.tensor.tobytes(),
+                  env.steps)
+        st = env.generate_initial_state()
+        want = subj.lay.encode_initial()
+        w = {"kind": "dyn", "spec": subj.spec.canonical(),
+             "route": subj.route, "modes": subj.modes,
+             "hist": [list(x) for x in subj.hist],
+             "op": ["generate_initial_state"]}
+        if st.tensor.shape != want.shape or \
+                not np.array_equal(st.tensor, want):
+            acc.violation("fresh_initial_state_wrong",
+                          "fresh_initial_state_wrong", {}, w)
+        if env.current_state is not before[0] or \
+                env.current_state.tensor.tobytes() != before[1] or \
+                env.steps != before[2] or \
+                np.shares_memory(st.tensor, env.current_state.tensor):
+            acc.violation("fresh_initial_state_disturbs_episode",
+                          "fresh_initial_state_disturbs_episode", {}, w)
+        acc.count("fresh_initial_states")
+
+
 class C05(Base):
     prop = "C05"
 
@@ -932,6 +959,23 @@ class C13(Base):
         env = subj.env
         return (env.current_state, env.current_state.tensor.tobytes(),
                 env.last_obs, env.last_obs.tensor.tobytes(), env.steps)
+
+    def fresh_initial_state(self, subj):
+        """generate_initial_state() must not disturb the environment."""
+        acc = self.acc
+        acc.evaluations += 1
+        snap = self.snapshot(subj)
+        st = subj.env.generate_initial_state()
+        env = subj.env
+        cur, curb, lo, lob, steps = snap
+        if env.current_state is not cur or \
+                env.current_state.tensor.tobytes() != curb or \
+                env.last_obs is not lo or \
+                env.last_obs.tensor.tobytes() != lob or env.steps != steps \
+                or np.shares_memory(st.tensor, cur.tensor):
+            acc.violation("generate_initial_state_disturbs_env",
+                          "generate_initial_state_disturbs_env", {}, None)
+        acc.count("fresh_initial_states")
 
     def check_gen(self, T, snap_before):
         """T came from subj.gen(); snap_before = snapshot() taken before."""
